@@ -721,6 +721,7 @@ impl St {
                     Err(e) => return S::tag("badenv", vec![S::str(&e)]),
                 };
                 let ex = extras_of(&l[3]);
+                let (_r0, w0) = a.evaluate_collect_warnings(&env, &ex);
                 let r1 = a.evaluate(&env, &ex);
                 let mut w2 = Vec::new();
                 let r2 = a.evaluate_reporter(&env, &ex, &mut |k, m| w2.push((k, m)));
@@ -737,7 +738,8 @@ impl St {
                 let (r6, w6) = req.evaluate_markers_and_report(&env, &ex);
                 S::tag(
                     "ok",
-                    vec![S::bool(r1), S::bool(r2), S::bool(r3), S::bool(r4), S::bool(r5), warnings(&w2), warnings(&w3), S::bool(r6), warnings(&w6)],
+                    // the last element: the first and a later evaluation of the same marker report the same warnings
+                    vec![S::bool(r1), S::bool(r2), S::bool(r3), S::bool(r4), S::bool(r5), warnings(&w2), warnings(&w3), S::bool(r6), warnings(&w6), S::bool(w0 == w3 && w0 == w2)],
                 )
             }
             "envcheck" => {
@@ -1169,6 +1171,55 @@ impl St {
                     return S::tag("panicked", vec![S::a(panicked)]);
                 }
                 S::tag("ok", vec![S::a(bad), S::a(n * iters), match first { Some((j, t)) => S::l(vec![S::a(j), S::str(&t)]), None => S::a("none") }])
+            }
+            "reent" => {
+                // (reent env timeout_ms): read-side calls are lock-free, so user code they call back (a Reporter) may itself use markers, a
+                // predicate running under simplify_extras_with may evaluate, and a Reporter that panics leaves the interner usable; run on
+                // a thread with a watchdog (a deadlock must not hang the harness)
+                let env = match env_of(&l[1]) { Ok(e) => e, Err(m) => return S::tag("bad-env", vec![S::str(&m)]) };
+                let timeout = l[2].num();
+                let (tx, rx) = std::sync::mpsc::channel();
+                std::thread::spawn(move || {
+                    let r = catch_unwind(AssertUnwindSafe(|| {
+                        let mut problems: Vec<String> = Vec::new();
+                        let m = MarkerTree::from_str("os_name < 'posix' or sys_platform == 'linux'").unwrap();
+                        // (a) a reporter that builds markers while evaluate_reporter is reporting
+                        let mut n = 0usize;
+                        let v = m.evaluate_reporter(&env, &[], &mut |_k, _msg| {
+                            n += 1;
+                            let mut x = MarkerTree::from_str(&format!("platform_machine == 'reent-{n}'")).unwrap();
+                            x.and(MarkerTree::from_str("os_name == 'posix'").unwrap());
+                            let _ = x.try_to_string();
+                        });
+                        if n == 0 { problems.push("no warning reported for a lexicographic comparison".to_string()); }
+                        if v != m.evaluate(&env, &[]) { problems.push("evaluate_reporter and evaluate disagree".to_string()); }
+                        // (b) a predicate that evaluates another marker while simplify_extras_with runs
+                        let other = MarkerTree::from_str("extra == 'gpu' and os_name == 'posix'").unwrap();
+                        let gpu = ExtraName::from_str("gpu").unwrap();
+                        let s = MarkerTree::from_str("sys_platform == 'linux' and extra == 'gpu'").unwrap().simplify_extras_with(|e| {
+                            let _ = other.evaluate(&env, std::slice::from_ref(e));
+                            let _ = other.try_to_string();
+                            *e == gpu
+                        });
+                        if Some(s) != MarkerTree::from_str("sys_platform == 'linux'").ok() { problems.push("simplify_extras_with gave another result".to_string()); }
+                        // (c) a reporter that panics: only that call fails, the interner stays usable
+                        let p = catch_unwind(AssertUnwindSafe(|| m.evaluate_reporter(&env, &[], &mut |_k, _msg| panic!("strict reporter"))));
+                        if p.is_ok() { problems.push("the strict reporter was never called".to_string()); }
+                        let after = catch_unwind(AssertUnwindSafe(|| {
+                            let mut y = MarkerTree::from_str("platform_machine == 'reent-after'").unwrap();
+                            y.or(MarkerTree::from_str("os_name == 'nt'").unwrap());
+                            y.evaluate(&env, &[])
+                        }));
+                        if after.is_err() { problems.push("after a panicking reporter every marker operation panics (poisoned interner)".to_string()); }
+                        problems
+                    }));
+                    let _ = tx.send(r);
+                });
+                match rx.recv_timeout(std::time::Duration::from_millis(timeout)) {
+                    Ok(Ok(p)) => S::tag("ok", p.iter().map(|x| S::str(x)).collect()),
+                    Ok(Err(_)) => S::a("panicked"),
+                    Err(_) => S::a("deadlock"),
+                }
             }
             "bulk" => {
                 // (bulk n) : n distinct conjunctions, to fill caches and tables
